@@ -82,10 +82,16 @@ def _snap_rational(x, maxden=10000, rel=1e-13):
     return None
 
 
+def inf_node():
+    return _mk('var', ('@inf',))
+
+
 def snap_float(x):
     """map a float constant met during execution to the real it stands for"""
     x = float(x)
-    if x != x or x in (float('inf'), float('-inf')):
+    if x == float('inf'):
+        return inf_node()
+    if x != x or x == float('-inf'):
         raise SymError('non-finite float constant %r in symbolic run' % x)
     if x == int(x) and abs(x) < 2**62:
         return const(Fraction(int(x)))
@@ -319,6 +325,10 @@ class Sym(object):
             if o.a[0] == 0:
                 raise ZeroDivisionError('symbolic division by constant zero')
             return self * const(1 / o.a[0])
+        if o.op == 'var' and o.a[0] == '@inf':
+            if self.op == 'var' and self.a[0] == '@inf':
+                raise SymError('inf/inf')
+            return _zero()
         ctx = _HOOKS['ctx']
         if ctx is not None:
             ctx.note_divisor(o)
